@@ -97,7 +97,7 @@ def run_shard(binary, scenarios, d, k, timeout):
     t_end = time.time() + timeout
     while skip < len(scenarios):
         env = dict(os.environ, VERIF_SCENARIOS=scn, VERIF_TRACES=trc, VERIF_PROGRESS=prog, VERIF_SKIP=str(skip),
-                   GOTRACEBACK="all")
+                   GOTRACEBACK="all", GORACE="halt_on_error=1")
         left = max(5, t_end - time.time())
         try:
             r = subprocess.run([binary, "-test.run", "TestScenarios", "-test.timeout", "0"], env=env,
